@@ -168,6 +168,10 @@ impl BinaryMatrix for DenseBinaryMatrix {
     }
 
     fn count_ones(&self, row: usize, start_col: usize, end_col: usize) -> usize {
+        // An empty range may start at `width`, whose word lies past the end of the last row
+        if start_col == end_col {
+            return 0;
+        }
         let (start_word, start_bit) = self.bit_position(row, start_col);
         let (end_word, end_bit) = self.bit_position(row, end_col);
         // Handle case when there is only one word
